@@ -90,7 +90,7 @@ pub const TARGETS: &[Target] = &[
     Target { name: "vcf.gz-payload", driver: "vcf.gz", domain: Domain::BgzfInner, extra_driver: None },
     Target { name: "cram-sealed", driver: "cram", domain: Domain::CramSealed, extra_driver: None },
     Target { name: "cram-file", driver: "cram", domain: Domain::Raw, extra_driver: None },
-    Target { name: "fasta", driver: "fasta", domain: Domain::Raw, extra_driver: None },
+    Target { name: "fasta", driver: "fasta", domain: Domain::Raw, extra_driver: Some("fasta-indexer") },
     Target { name: "fastq", driver: "fastq", domain: Domain::Raw, extra_driver: None },
     Target { name: "gff", driver: "gff", domain: Domain::Raw, extra_driver: None },
     Target { name: "gtf", driver: "gtf", domain: Domain::Raw, extra_driver: None },
